@@ -234,6 +234,16 @@ func (r *Run) saveCase(c Case) string {
 	return p
 }
 
+// ReplayOf returns the replay file of a recorded violation key ("" if none).
+func (r *Run) ReplayOf(key string) string {
+	r.mu.Lock()
+	defer r.mu.Unlock()
+	if v, ok := r.violations[key]; ok {
+		return v.Replay
+	}
+	return ""
+}
+
 // IsKnown reports whether key is an open known finding of this property.
 func (r *Run) IsKnown(key string) bool { _, ok := r.knownOpen[key]; return ok }
 
